@@ -14,6 +14,16 @@ def gen(ctx):
 
 def run(ctx):
     ctx.prove()
+    # string tags (STRING / SSTRING arrays) are outside the tag-store model: judged on the implementation against a list of strings
+    import random
+    nstr = 0
+    for k in range(150 if ctx.thorough else 25):
+        nstr += 1
+        res = L.string_tags_check(random.Random(ctx.seed * 1000 + k), 40)
+        if res is not None:
+            ctx.violation(dict(string_tags=dict(S='STRING[3]', T='SSTRING[2]'), history=res[0][-12:]), res[1])
+            break
+    ctx.coverage['string_tag_histories'] = nstr
     L.logix_check(ctx, 'C03', gen(ctx),
                   rule='seeded random tag configurations (1-5 tags, all 11 scalar CIP types, scalar and array, auto-allocated in the Message '
                        'Router or at explicit @class/instance/attribute, several sharing an instance) x histories of 1-25 (thorough 1-40) requests '
